@@ -54,6 +54,12 @@ Proof.
   - destruct j as [|j]; try lia. simpl. apply (IH q); auto; lia.
 Qed.
 
+Lemma In_last : forall (l : list pt) d, l <> [] -> In (last l d) l.
+Proof.
+  induction l as [|x l IH]; intros d H; [congruence|].
+  destruct l as [|y l]; [left; reflexivity|]. right. change (In (last (y :: l) d) (y :: l)). apply IH; congruence.
+Qed.
+
 Lemma Forall_last : forall (P : pt -> Prop) l d, l <> [] -> Forall P l -> P (last l d).
 Proof.
   induction l as [|x l IH]; intros d H HF; [congruence|]. inversion HF; subst.
@@ -83,6 +89,118 @@ Definition hd_same (p : pt) (l : list pt) : Prop :=
 
 Lemma F2M_pos : 0 < @FEET_TO_METERS RNum.
 Proof. unfold FEET_TO_METERS. rnum. lra. Qed.
+
+
+(* ---------------- the altitude schedule of LegacyContext ---------------- *)
+Definition ft3000 : R := @c3000 RNum * @FEET_TO_METERS RNum.
+Definition ft7000 : R := @c7000 RNum * @FEET_TO_METERS RNum.
+
+Lemma ft3000_val : ft3000 = 914.4.
+Proof. unfold ft3000, c3000, FEET_TO_METERS. rnum. lra. Qed.
+Lemma ft7000_val : ft7000 = 2133.6.
+Proof. unfold ft7000, c7000, FEET_TO_METERS. rnum. lra. Qed.
+
+Ltac case_bools H :=
+  repeat match goal with
+  | H' : context [if Rltb ?a ?b then _ else _] |- _ =>
+      let E := fresh "E" in destruct (Rltb a b) eqn:E; [apply Rltb_true in E | apply Rltb_false in E]
+  | H' : context [if Rleb ?a ?b then _ else _] |- _ =>
+      let E := fresh "E" in destruct (Rleb a b) eqn:E; [apply Rleb_true in E | apply Rleb_false in E]
+  end.
+
+Lemma schedule_ok : forall o d mx s, @schedule RNum o d mx = Ok s ->
+  s_clm s <= s_crz s /\ s_crz s <= mx /\ s_des_start s = s_crz s /\ s_des_end s <= s_crz s /\ 0 <= s_ddist s /\
+  ((s_clm s = o + ft3000 /\ o + ft3000 < mx) \/ (s_clm s = o /\ mx <= o + ft3000)) /\
+  ((s_des_end s = d + ft3000 /\ d + ft3000 < mx) \/ (s_des_end s = mx /\ mx <= d + ft3000)).
+Proof.
+  intros o d mx s H. unfold schedule in H.
+  change (@c3000 RNum * @FEET_TO_METERS RNum)%num with ft3000 in H.
+  change (@c7000 RNum * @FEET_TO_METERS RNum)%num with ft7000 in H.
+  pose proof ft3000_val as V3. pose proof ft7000_val as V7.
+  unfold c1823, c0 in H. rnum. cbv zeta in H.
+  case_bools H; try discriminate; inversion H; subst; clear H; simpl;
+    (split; [try lra|split; [try lra|split; [try lra|split; [try lra|split; [try lra|split]]]]]);
+    try first [left; split; lra | right; split; lra].
+Qed.
+
+(* an airport above the ceiling, or a destination whose +3000 ft level is above the cruise level: refused *)
+Lemma origin_above_ceiling_refused : forall o d mx, mx < o -> @schedule RNum o d mx = Err ESchedule.
+Proof.
+  intros o d mx Ho. destruct (@schedule RNum o d mx) as [s|e] eqn:E.
+  - apply schedule_ok in E. pose proof ft3000_val. lra.
+  - unfold schedule in E. destruct e; auto; exfalso;
+      repeat match type of E with (if ?c then _ else _) = _ => destruct c end; discriminate.
+Qed.
+
+Lemma destination_above_cruise_refused : forall o d mx,
+  o + ft3000 <= mx - ft7000 -> mx - ft7000 < d + ft3000 -> @schedule RNum o d mx = Err ESchedule.
+Proof.
+  intros o d mx Ho Hd. destruct (@schedule RNum o d mx) as [s|e] eqn:E.
+  - exfalso. pose proof E as E0. apply schedule_ok in E. pose proof ft3000_val as V3. pose proof ft7000_val as V7.
+    (* the cruise level of an ordinary origin is ceiling - 7000 ft *)
+    assert (Hc : s_crz s = mx - ft7000).
+    { unfold schedule in E0.
+      change (@c3000 RNum * @FEET_TO_METERS RNum)%num with ft3000 in E0.
+      change (@c7000 RNum * @FEET_TO_METERS RNum)%num with ft7000 in E0.
+      unfold c1823, c0 in E0. rnum. cbv zeta in E0.
+      case_bools E0; try discriminate; inversion E0; subst; simpl; lra. }
+    lra.
+  - unfold schedule in E. destruct e; auto; exfalso;
+      repeat match type of E with (if ?c then _ else _) = _ => destruct c end; discriminate.
+Qed.
+
+Lemma div_nonneg_pos : forall a b, 0 <= a -> 0 < b -> 0 <= a / b.
+Proof. intros. unfold Rdiv. apply Rle_mult_inv_pos; auto. Qed.
+Lemma div_nonpos_neg : forall a b, a <= 0 -> b < 0 -> 0 <= a / b.
+Proof. intros. replace (a / b) with ((- a) / (- b)) by (field; lra). apply div_nonneg_pos; lra. Qed.
+
+Lemma div_nonpos_pos : forall a b, a <= 0 -> 0 < b -> a / b <= 0.
+Proof.
+  intros. replace (a / b) with (- ((- a) / b)) by (field; lra).
+  assert (0 <= (- a) / b) by (apply div_nonneg_pos; lra). lra.
+Qed.
+
+Lemma div_nonneg_inv : forall e b, 0 < b -> 0 <= e / b -> 0 <= e.
+Proof. intros e b Hb H. replace e with (e / b * b) by (field; lra). apply Rmult_le_pos; lra. Qed.
+
+Lemma nm1_INR : forall n, @nm1 RNum n = INR (Nat.pred n).
+Proof. intros. unfold nm1. rnum. rewrite INR_IZR_INZ. reflexivity. Qed.
+Lemma nm1_pos : forall n, (2 <= n)%nat -> 0 < @nm1 RNum n.
+Proof. intros. rewrite nm1_INR. apply lt_0_INR. lia. Qed.
+
+(* an affine altitude profile from [s] to [e] in n - 1 equal steps *)
+Lemma affine_up : forall s e n i j, (2 <= n)%nat -> s <= e -> (i <= j)%nat -> (j <= Nat.pred n)%nat ->
+  let dl := (e - s) / INR (Nat.pred n) in
+  s + (0 + INR i) * dl <= s + (0 + INR j) * dl /\ s <= s + (0 + INR i) * dl /\ s + (0 + INR j) * dl <= e.
+Proof.
+  intros s e n i j Hn Hse Hij Hj dl.
+  assert (Hp : 0 < INR (Nat.pred n)) by (apply lt_0_INR; lia).
+  assert (Hd : 0 <= dl) by (apply div_nonneg_pos; lra).
+  assert (Hi : 0 <= INR i) by apply pos_INR.
+  assert (Hij' : INR i <= INR j) by (apply le_INR; auto).
+  assert (Hjn : INR j <= INR (Nat.pred n)) by (apply le_INR; auto).
+  assert (He : INR (Nat.pred n) * dl = e - s) by (unfold dl; field; lra).
+  repeat split; nra.
+Qed.
+
+Lemma affine_down : forall s e n i j, (2 <= n)%nat -> e <= s -> (i <= j)%nat -> (j <= Nat.pred n)%nat ->
+  let dl := (e - s) / INR (Nat.pred n) in
+  s + (0 + INR j) * dl <= s + (0 + INR i) * dl /\ s + (0 + INR i) * dl <= s /\ e <= s + (0 + INR j) * dl.
+Proof.
+  intros s e n i j Hn Hse Hij Hj dl.
+  assert (Hp : 0 < INR (Nat.pred n)) by (apply lt_0_INR; lia).
+  assert (Hd : dl <= 0).
+  { unfold dl. replace ((e - s) / INR (Nat.pred n)) with (- ((s - e) / INR (Nat.pred n))) by (field; lra).
+    assert (0 <= (s - e) / INR (Nat.pred n)) by (apply div_nonneg_pos; lra). lra. }
+  assert (Hi : 0 <= INR i) by apply pos_INR.
+  assert (Hij' : INR i <= INR j) by (apply le_INR; auto).
+  assert (Hjn : INR j <= INR (Nat.pred n)) by (apply le_INR; auto).
+  assert (He : INR (Nat.pred n) * dl = e - s) by (unfold dl; field; lra).
+  repeat split; nra.
+Qed.
+
+Lemma affine_end : forall s e n, (2 <= n)%nat -> s + (0 + INR (Nat.pred n)) * ((e - s) / INR (Nat.pred n)) = e.
+Proof. intros. assert (0 < INR (Nat.pred n)) by (apply lt_0_INR; lia). field. lra. Qed.
 
 Section BuilderProofs.
   Variable perf : nat -> rule -> R -> R -> option (R * R * R).
@@ -186,7 +304,7 @@ Section BuilderProofs.
   End LC.
 
   (* ---------------- cruise ---------------- *)
-  Lemma crz_inv : forall step m p kp kg l kp' kg',
+  Lemma crz_inv : forall (step : R) m (p : pt) kp kg l kp' kg',
     0 < p_tas p -> pos_ok p ->
     @crz_loop RNum perf geo step m p kp kg = Ok (l, kp', kg') ->
     chain p l /\ length l = m /\ Forall Pcrz l /\ Forall (fun q => p_alt q = p_alt p) l /\
@@ -207,11 +325,11 @@ Section BuilderProofs.
       assert (Hseg : 0 <= step / p_tas p).
       { unfold Rdiv. apply Rle_mult_inv_pos; auto. }
       assert (Hsf : 0 <= f * (step / p_tas p)) by (apply Rmult_le_pos; auto).
-      assert (Htas' : 0 < p_tas (crz_next step p (lon, lat, az) (t, r, f))) by (simpl; auto).
-      assert (Hpos' : pos_ok (crz_next step p (lon, lat, az) (t, r, f))).
+      assert (Htas' : 0 < p_tas (@crz_next RNum step p (lon, lat, az) (t, r, f))) by (simpl; auto).
+      assert (Hpos' : pos_ok (@crz_next RNum step p (lon, lat, az) (t, r, f))).
       { right. exists kg. exact Hg. }
       destruct (IH _ _ _ _ _ _ Htas' Hpos' El) as (Hc & Hl & HF & Ha & Hh).
-      assert (Hle : le_pt (crz_q p) (crz_next step p (lon, lat, az) (t, r, f))).
+      assert (Hle : le_pt (crz_q p) (@crz_next RNum step p (lon, lat, az) (t, r, f))).
       { unfold le_pt, crz_q, crz_next. simpl. rnum. repeat split; lra. }
       split; [|split; [|split; [|split]]].
       + simpl. split; [unfold le_pt, crz_q; simpl; repeat split; lra|]. eapply chain_weaken; eauto.
@@ -223,7 +341,7 @@ Section BuilderProofs.
   Qed.
 
   (* a cruise leg of negative length (the mission is too short for climb + descent) is refused *)
-  Lemma too_short_refused : forall step m p kp kg,
+  Lemma too_short_refused : forall (step : R) m (p : pt) kp kg,
     step < 0 -> @crz_loop RNum perf geo step (S m) p kp kg = Err ETrack.
   Proof.
     intros step m p kp kg Hs. simpl. unfold track_step. rnum.
@@ -232,12 +350,12 @@ Section BuilderProofs.
   Qed.
 
   (* a state outside the envelope ends the flight with an error *)
-  Lemma outside_envelope_refused_lc : forall rl lhv start delta m idx p kp kg,
+  Lemma outside_envelope_refused_lc : forall rl (lhv start delta : R) m (idx : R) (p : pt) kp kg,
     perf kp rl (start + idx * delta) (p_mass p) = None ->
     @lc_loop RNum perf geo rl lhv start delta m idx p kp kg = Err EPerf.
   Proof. intros. destruct m; simpl; rnum; rewrite H; reflexivity. Qed.
 
-  Lemma outside_envelope_refused_crz : forall step m p kp kg,
+  Lemma outside_envelope_refused_crz : forall (step : R) m (p : pt) kp kg,
     0 <= p_dist p -> 0 <= step -> perf kp Cruise (p_alt p) (p_mass p) = None ->
     @crz_loop RNum perf geo step (S m) p kp kg = Err EPerf.
   Proof.
@@ -245,5 +363,303 @@ Section BuilderProofs.
     replace (Rltb (p_dist p) 0) with false by (symmetry; apply Rltb_false; auto).
     replace (Rltb step 0) with false by (symmetry; apply Rltb_false; auto).
     simpl. rewrite H1. reflexivity.
+  Qed.
+
+  (* ---------------- one whole flight iteration (hand-over = last point) ---------------- *)
+  Notation flight := (@C02_Model.flight RNum).
+  Notation sched := (@C02_Model.sched RNum).
+  Notation traj := (@C02_Model.traj RNum).
+
+  Definition sched_ok (s : sched) : Prop :=
+    s_clm s <= s_crz s /\ s_des_end s <= s_des_start s /\ s_des_start s = s_crz s.
+
+  Lemma hand_last : forall l : list pt, l <> [] -> @hand RNum true l = Ok (last l pt0).
+  Proof. intros l H. unfold hand. rewrite (handover_takes_last_point pt pt0 l H). reflexivity. Qed.
+
+  Lemma length_nonnil : forall (l : list pt) n, length l = S n -> l <> [].
+  Proof. intros l n H E; subst; discriminate. Qed.
+
+  Record flight_facts (f : flight) (s : sched) (sm tf : R) (t : traj) : Prop := mkfacts {
+    ff_chain : chain (start_point f s sm tf) (points t);
+    ff_hd : hd_same (start_point f s sm tf) (points t);
+    ff_n1 : length (t_climb t) = f_n_clm f;
+    ff_n2 : length (t_cruise t) = f_n_crz f;
+    ff_n3 : length (t_descent t) = f_n_des f;
+    ff_env1 : Forall (Plc Climb) (t_climb t);
+    ff_env2 : Forall Pcrz (t_cruise t);
+    ff_env3 : Forall (Plc Descend) (t_descent t);
+    ff_alt1 : alts (s_clm s) ((s_crz s - s_clm s) / INR (Nat.pred (f_n_clm f))) (t_climb t) 0;
+    ff_alt2 : Forall (fun q => p_alt q = s_crz s) (t_cruise t);
+    ff_alt3 : alts (s_des_start s) ((s_des_end s - s_des_start s) / INR (Nat.pred (f_n_des f))) (t_descent t) 0;
+    (* the cruise leg has non-negative length: climb and estimated descent fit into the route *)
+    ff_long_enough : p_dist (last (t_climb t) pt0) <= f_total f - s_ddist s }.
+
+  Theorem fly_iteration_facts : forall (f : flight) (s : sched) (sm tf : R) kp kg t r kp' kg',
+    sched_ok s -> (2 <= f_n_clm f)%nat -> (2 <= f_n_crz f)%nat -> (2 <= f_n_des f)%nat ->
+    origin = (f_o_lon f, f_o_lat f, f_az0 f) ->
+    @fly_iteration RNum perf geo true f s sm tf kp kg = Ok (t, r, kp', kg') ->
+    flight_facts f s sm tf t /\ r = (tf - (sm - p_mass (last (points t) pt0))) / tf.
+  Proof.
+    intros f s sm tf kp kg t r kp' kg' (Hs1 & Hs2 & Hs3) Hn1 Hn2 Hn3 Ho H.
+    unfold fly_iteration in H.
+    set (p0 := start_point f s sm tf) in *.
+    assert (Hp0 : pos_ok p0) by (left; split; [reflexivity|symmetry; exact Ho]).
+    pose proof (nm1_pos _ Hn1) as Hm1. pose proof (nm1_pos _ Hn3) as Hm3.
+    (* climb *)
+    match type of H with (match ?X with Ok _ => _ | Err _ => _ end) = _ =>
+      destruct X as [[[l1 kp1] kg1]|e0] eqn:E1; [|discriminate] end.
+    apply lc_inv in E1; auto.
+    2:{ intros k a m t0 r0 f0 Hp. destruct (climb_ok _ _ _ _ _ _ Hp) as (Hr & Ht). split; auto.
+        apply div_nonneg_pos; auto. apply div_nonneg_pos; auto. rnum. lra. }
+    destruct E1 as (C1 & L1 & F1 & A1 & H1).
+    assert (N1 : l1 <> []) by (eapply length_nonnil; eauto).
+    rewrite (hand_last l1 N1) in H.
+    set (h1 := last l1 pt0) in *.
+    assert (Hh1 : Plc Climb h1) by (apply Forall_last; auto).
+    destruct Hh1 as (_ & Htas1 & Hpos1).
+    (* cruise *)
+    match type of H with (match ?X with Ok _ => _ | Err _ => _ end) = _ =>
+      destruct X as [[[l2 kp2] kg2]|e0] eqn:E2; [|discriminate] end.
+    apply crz_inv in E2; [|exact Htas1|].
+    2:{ destruct Hpos1 as [(Hd0 & Ho1)|(k & Hk)]; [left|right]; simpl; auto. exists k; auto. }
+    destruct E2 as (C2 & L2 & F2 & A2 & H2).
+    assert (N12 : l1 ++ l2 <> []) by (destruct l1; [congruence|discriminate]).
+    rewrite (hand_last _ N12) in H.
+    set (h2 := last (l1 ++ l2) pt0) in *.
+    (* descent *)
+    match type of H with (match ?X with Ok _ => _ | Err _ => _ end) = _ =>
+      destruct X as [[[l3 kp3] kg3]|e0] eqn:E3; [|discriminate] end.
+    assert (Hh2 : pos_ok h2).
+    { assert (HF : Forall pos_ok (l1 ++ l2)).
+      { apply Forall_app; split.
+        - eapply Forall_impl; [|exact F1]. intros q (_ & _ & Hq); exact Hq.
+        - eapply Forall_impl; [|exact F2]. intros q (_ & Hq); exact Hq. }
+      apply Forall_last; auto. }
+    apply lc_inv in E3; auto.
+    2:{ intros k a m t0 r0 f0 Hp. destruct (descend_ok _ _ _ _ _ _ Hp) as (Hr & Ht). split; auto.
+        apply div_nonpos_neg; auto. apply div_nonpos_pos; auto. rnum. lra. }
+    destruct E3 as (C3 & L3 & F3 & A3 & H3).
+    inversion H; subst t r kp' kg'; clear H.
+    split; [|reflexivity].
+    (* the chain across the two hand-overs *)
+    assert (Cc : chain h1 l2).
+    { eapply chain_weaken; [|exact C2]. unfold le_pt, crz_entry; simpl; repeat split; lra. }
+    assert (C12 : chain p0 (l1 ++ l2)).
+    { apply chain_app; auto. rewrite (last_indep l1 p0 pt0 N1). exact Cc. }
+    assert (C123 : chain p0 ((l1 ++ l2) ++ l3)).
+    { apply chain_app; auto. rewrite (last_indep (l1 ++ l2) p0 pt0 N12). exact C3. }
+    constructor; unfold points; simpl.
+    - rewrite app_assoc. exact C123.
+    - destruct l1; [congruence|]. exact H1.
+    - rewrite L1. lia.
+    - rewrite L2. reflexivity.
+    - rewrite L3. lia.
+    - exact F1.
+    - exact F2.
+    - exact F3.
+    - rewrite <- nm1_INR. exact A1.
+    - eapply Forall_impl; [|exact A2]. intros q Hq. rewrite Hq. reflexivity.
+    - rewrite <- nm1_INR. exact A3.
+    - destruct (H2 ltac:(lia)) as (_ & Hstep).
+      assert (Hm2 : 0 < INR (Nat.pred (f_n_crz f))) by (apply lt_0_INR; lia).
+      fold h1. rewrite nm1_INR in Hstep. unfold crz_entry in Hstep. cbn [p_dist] in Hstep.
+      revert Hstep. rnum. intros Hstep.
+      apply (div_nonneg_inv _ _ Hm2) in Hstep. lra.
+  Qed.
+
+  (* ---------------- what follows for the returned points ---------------- *)
+  Section Consequences.
+    Variables (f : flight) (s : sched) (sm tf : R) (t : traj).
+    Hypothesis facts : flight_facts f s sm tf t.
+    Hypothesis sok : sched_ok s.
+    Hypothesis n1 : (2 <= f_n_clm f)%nat.
+    Hypothesis n3 : (2 <= f_n_des f)%nat.
+
+    Lemma start_le_all : forall q, In q (points t) -> le_pt (start_point f s sm tf) q.
+    Proof.
+      intros q Hq. destruct (In_nth _ _ pt0 Hq) as (j & Hj & <-).
+      apply chain_nth; auto. apply (ff_chain _ _ _ _ _ facts).
+    Qed.
+
+    Theorem mass_minus_fuel_is_constant : forall q, In q (points t) -> p_mass q - p_fuel q = sm - tf.
+    Proof. intros q Hq. destruct (start_le_all q Hq) as (H & _). exact H. Qed.
+
+    Theorem bookkeeping_monotone : forall i j, (i <= j)%nat -> (j < length (points t))%nat ->
+      let p := nth i (points t) pt0 in let q := nth j (points t) pt0 in
+      p_fuel q <= p_fuel p /\ p_mass q <= p_mass p /\ p_time p <= p_time q /\ p_dist p <= p_dist q.
+    Proof.
+      intros i j Hij Hj p q.
+      destruct (chain_pairs _ _ i j (ff_chain _ _ _ _ _ facts) Hij Hj) as (_ & H2 & H3 & H4 & H5). auto.
+    Qed.
+
+    Theorem first_point_is_the_start :
+      let q := nth 0 (points t) pt0 in
+      p_mass q = sm /\ p_fuel q = tf /\ p_time q = 0 /\ p_dist q = 0 /\ p_alt q = s_clm s.
+    Proof.
+      pose proof (ff_hd _ _ _ _ _ facts) as H. pose proof (ff_alt1 _ _ _ _ _ facts) as A.
+      pose proof (ff_n1 _ _ _ _ _ facts) as L.
+      unfold points in *. destruct (t_climb t) as [|q l]; simpl in L; [lia|].
+      simpl in *. destruct H as (H1 & H2 & H3 & H4). destruct A as (A1 & _).
+      repeat split; auto. rewrite A1. rnum. ring.
+    Qed.
+
+    Theorem positions_on_track : Forall pos_ok (points t).
+    Proof.
+      unfold points. apply Forall_app; split; [|apply Forall_app; split].
+      - eapply Forall_impl; [|exact (ff_env1 _ _ _ _ _ facts)]. intros q (_ & _ & Hq); exact Hq.
+      - eapply Forall_impl; [|exact (ff_env2 _ _ _ _ _ facts)]. intros q (_ & Hq); exact Hq.
+      - eapply Forall_impl; [|exact (ff_env3 _ _ _ _ _ facts)]. intros q (_ & _ & Hq); exact Hq.
+    Qed.
+
+    Theorem points_inside_envelope :
+      Forall (fun q : pt => inside Climb (p_alt q) (p_mass q) = true) (t_climb t) /\
+      Forall (fun q : pt => inside Cruise (p_alt q) (p_mass q) = true) (t_cruise t) /\
+      Forall (fun q : pt => inside Descend (p_alt q) (p_mass q) = true) (t_descent t).
+    Proof.
+      split; [|split].
+      - eapply Forall_impl; [|exact (ff_env1 _ _ _ _ _ facts)]. intros q (Hq & _); exact Hq.
+      - eapply Forall_impl; [|exact (ff_env2 _ _ _ _ _ facts)]. intros q (Hq & _); exact Hq.
+      - eapply Forall_impl; [|exact (ff_env3 _ _ _ _ _ facts)]. intros q (Hq & _); exact Hq.
+    Qed.
+
+    Theorem climb_altitudes : forall i j, (i <= j)%nat -> (j < f_n_clm f)%nat ->
+      let a k := p_alt (nth k (t_climb t) pt0) in
+      a i <= a j /\ s_clm s <= a i /\ a j <= s_crz s /\ a 0%nat = s_clm s /\ a (Nat.pred (f_n_clm f)) = s_crz s.
+    Proof.
+      intros i j Hij Hj a. destruct sok as (S1 & S2 & S3).
+      pose proof (ff_alt1 _ _ _ _ _ facts) as A. pose proof (ff_n1 _ _ _ _ _ facts) as L.
+      unfold a. rewrite !(alts_nth _ _ _ _ _ A) by lia.
+      destruct (affine_up (s_clm s) (s_crz s) (f_n_clm f) i j n1 S1 Hij ltac:(lia)) as (B1 & B2 & B3).
+      repeat split; auto.
+      - simpl. lra.
+      - apply affine_end; auto.
+    Qed.
+
+    Theorem cruise_altitude : forall q : pt, In q (t_cruise t) -> p_alt q = s_crz s.
+    Proof. intros q Hq. pose proof (ff_alt2 _ _ _ _ _ facts) as A. rewrite Forall_forall in A. auto. Qed.
+
+    Theorem descent_altitudes : forall i j, (i <= j)%nat -> (j < f_n_des f)%nat ->
+      let a k := p_alt (nth k (t_descent t) pt0) in
+      a j <= a i /\ a i <= s_crz s /\ s_des_end s <= a j /\ a 0%nat = s_crz s /\ a (Nat.pred (f_n_des f)) = s_des_end s.
+    Proof.
+      intros i j Hij Hj a. destruct sok as (S1 & S2 & S3).
+      pose proof (ff_alt3 _ _ _ _ _ facts) as A. pose proof (ff_n3 _ _ _ _ _ facts) as L.
+      unfold a. rewrite !(alts_nth _ _ _ _ _ A) by lia.
+      destruct (affine_down (s_des_start s) (s_des_end s) (f_n_des f) i j n3 S2 Hij ltac:(lia)) as (B1 & B2 & B3).
+      rewrite <- S3. repeat split; auto.
+      - simpl. lra.
+      - apply affine_end; auto.
+    Qed.
+  End Consequences.
+
+  (* ---------------- mass iteration ---------------- *)
+  Lemma iterate_S : forall (f : flight) (s : sched) (reltol : R) k t r sm tf kp kg,
+    @iterate RNum perf geo true f s reltol (S k) t r sm tf kp kg =
+    if Rltb (Rabs r) reltol then Ok (t, r, sm, tf, kp, kg)
+    else match @fly_iteration RNum perf geo true f s (sm - r * tf) (tf - r * tf) kp kg with
+         | Err e => Err e
+         | Ok (t', r', kp', kg') => @iterate RNum perf geo true f s reltol k t' r' (sm - r * tf) (tf - r * tf) kp' kg'
+         end.
+  Proof. reflexivity. Qed.
+
+  Theorem iterate_tolerance_or_error : forall (f : flight) (s : sched) (reltol : R) k t r sm tf kp kg,
+    match @iterate RNum perf geo true f s reltol k t r sm tf kp kg with
+    | Ok (t', r', sm', tf', _, _) => Rabs r' < reltol
+    | Err _ => True
+    end.
+  Proof.
+    intros f s reltol. induction k as [|k IH]; intros t r sm tf kp kg; [simpl; auto|].
+    rewrite iterate_S. destruct (Rltb (Rabs r) reltol) eqn:E.
+    - apply Rltb_true in E. exact E.
+    - destruct (@fly_iteration RNum perf geo true f s (sm - r * tf) (tf - r * tf) kp kg)
+        as [[[[t' r'] kp'] kg']|e0]; auto. apply IH.
+  Qed.
+
+  (* the starting mass and the fuel load are corrected by the same amount: the dry mass is untouched *)
+  Theorem iterate_keeps_dry_mass : forall (f : flight) (s : sched) (reltol : R) k t r sm tf kp kg t' r' sm' tf' kp' kg',
+    @iterate RNum perf geo true f s reltol k t r sm tf kp kg = Ok (t', r', sm', tf', kp', kg') ->
+    sm' - tf' = sm - tf.
+  Proof.
+    intros f s reltol. induction k as [|k IH]; intros t r sm tf kp kg t' r' sm' tf' kp' kg' H;
+      [simpl in H; discriminate|].
+    rewrite iterate_S in H. destruct (Rltb (Rabs r) reltol).
+    - inversion H; subst; reflexivity.
+    - destruct (@fly_iteration RNum perf geo true f s (sm - r * tf) (tf - r * tf) kp kg)
+        as [[[[t1 r1] kp1] kg1]|e0]; [|discriminate].
+      apply IH in H. lra.
+  Qed.
+
+  (* the trajectory that [iterate] returns is the result of a whole flight iteration (or the one handed in) *)
+  Theorem iterate_returns_flown : forall (f : flight) (s : sched) (reltol : R) k t r sm tf kp kg t' r' sm' tf' kp' kg',
+    @iterate RNum perf geo true f s reltol k t r sm tf kp kg = Ok (t', r', sm', tf', kp', kg') ->
+    (t' = t /\ r' = r /\ sm' = sm /\ tf' = tf /\ kp' = kp /\ kg' = kg) \/
+    exists kp0 kg0, @fly_iteration RNum perf geo true f s sm' tf' kp0 kg0 = Ok (t', r', kp', kg').
+  Proof.
+    intros f s reltol. induction k as [|k IH]; intros t r sm tf kp kg t' r' sm' tf' kp' kg' H;
+      [simpl in H; discriminate|].
+    rewrite iterate_S in H. destruct (Rltb (Rabs r) reltol).
+    - inversion H; subst; left; repeat split; auto.
+    - destruct (@fly_iteration RNum perf geo true f s (sm - r * tf) (tf - r * tf) kp kg)
+        as [[[[t1 r1] kp1] kg1]|e0] eqn:E1; [|discriminate].
+      destruct (IH _ _ _ _ _ _ _ _ _ _ _ _ H) as [(-> & -> & -> & -> & -> & ->)|(kp0 & kg0 & H0)].
+      + right. exists kp, kg. exact E1.
+      + right. exists kp0, kg0. exact H0.
+  Qed.
+
+  (* ---------------- Builder.fly ---------------- *)
+  Notation result := (@C02_Model.result RNum).
+
+  Theorem fly_facts : forall (f : flight) it max_iters (reltol : R) (res : result),
+    (2 <= f_n_clm f)%nat -> (2 <= f_n_crz f)%nat -> (2 <= f_n_des f)%nat ->
+    origin = (f_o_lon f, f_o_lat f, f_az0 f) ->
+    @fly RNum perf geo true f None it max_iters reltol = Ok res ->
+    exists s, @schedule RNum (f_o_alt f) (f_d_alt f) (f_max_alt f) = Ok s /\ sched_ok s /\
+      flight_facts f s (r_start_mass res) (r_total_fuel res) (r_traj res) /\
+      r_residual res = (r_total_fuel res - (r_start_mass res - p_mass (last (points (r_traj res)) pt0))) / r_total_fuel res /\
+      (it = true -> Rabs (r_residual res) < reltol).
+  Proof.
+    intros f it max_iters reltol res Hn1 Hn2 Hn3 Ho H. unfold fly in H.
+    destruct (@schedule RNum (f_o_alt f) (f_d_alt f) (f_max_alt f)) as [s|e] eqn:Es; [|discriminate].
+    exists s. split; auto.
+    assert (Hs : sched_ok s).
+    { apply schedule_ok in Es. destruct Es as (A1 & A2 & A3 & A4 & _). unfold sched_ok. rewrite A3. auto. }
+    split; auto.
+    match type of H with (match ?X with Ok _ => _ | Err _ => _ end) = _ =>
+      destruct X as [[sm tf]|e0] eqn:Ec; [|discriminate] end.
+    destruct (@fly_iteration RNum perf geo true f s sm tf 1 0) as [[[[t r] kp] kg]|e0] eqn:E0; [|discriminate].
+    destruct it.
+    - match type of H with (match ?X with Ok _ => _ | Err _ => _ end) = _ =>
+        destruct X as [[[[[[t' r'] sm'] tf'] kp'] kg']|e0] eqn:Ei; [|discriminate] end.
+      inversion H; subst res; clear H. simpl.
+      pose proof (iterate_tolerance_or_error f s reltol (Nat.pred max_iters) t r sm tf kp kg) as Htol.
+      rewrite Ei in Htol. simpl in Htol.
+      destruct (iterate_returns_flown _ _ _ _ _ _ _ _ _ _ _ _ _ _ _ _ Ei) as [(-> & -> & -> & -> & -> & ->)|(kp0 & kg0 & H0)].
+      + destruct (fly_iteration_facts _ _ _ _ _ _ _ _ _ _ Hs Hn1 Hn2 Hn3 Ho E0) as (F & Hr).
+        split; [exact F|split; [exact Hr|intros _; exact Htol]].
+      + destruct (fly_iteration_facts _ _ _ _ _ _ _ _ _ _ Hs Hn1 Hn2 Hn3 Ho H0) as (F & Hr).
+        split; [exact F|split; [exact Hr|intros _; exact Htol]].
+    - inversion H; subst res; clear H. simpl.
+      destruct (fly_iteration_facts _ _ _ _ _ _ _ _ _ _ Hs Hn1 Hn2 Hn3 Ho E0) as (F & Hr).
+      split; [exact F|split; [exact Hr|discriminate]].
+  Qed.
+
+  (* the residual that the iteration tests is the leftover trip fuel relative to the fuel load *)
+  Theorem residual_is_leftover_fuel : forall (f : flight) (s : sched) (sm tf : R) (t : traj),
+    flight_facts f s sm tf t -> (1 <= f_n_clm f)%nat ->
+    (tf - (sm - p_mass (last (points t) pt0))) / tf = p_fuel (last (points t) pt0) / tf.
+  Proof.
+    intros f s sm tf t F Hn.
+    assert (Hin : In (last (points t) pt0) (points t)).
+    { apply In_last. pose proof (ff_n1 _ _ _ _ _ F) as L. unfold points.
+      destruct (t_climb t); simpl in L; [lia|discriminate]. }
+    pose proof (mass_minus_fuel_is_constant f s sm tf t F _ Hin) as Hc.
+    f_equal. lra.
+  Qed.
+
+  (* a starting mass handed in by the caller leaves the fuel load undefined: no trajectory is produced *)
+  Theorem given_mass_never_flies : forall (f : flight) (m : R) it max_iters (reltol : R),
+    exists e, @fly RNum perf geo true f (Some m) it max_iters reltol = Err e.
+  Proof.
+    intros. unfold fly. destruct (@schedule RNum (f_o_alt f) (f_d_alt f) (f_max_alt f)); eexists; reflexivity.
   Qed.
 End BuilderProofs.
